@@ -62,6 +62,20 @@ def compare(rules, start, text, model=None, cfg=None):
         t = ('exc', 'no-result', 'no result within 10 s')
     rr = ('fail',) if r[0] == 'fail' else ('ok', r[1], tu.canon(r[2]))
     fl = set(ref.flags)
+    if 'U7' in fl and not ref.u7_lookahead:
+        # a cut directly in a plain group: the docs scope it to the group, the engine lets it through.  Where both readings
+        # give the same outcome for this input the difference does not matter and the case is compared after all.
+        ref2 = Ref(rules, text, group_scopes_cut=True, **cfg)
+        r2 = ref2.parse(start)
+        rr2 = ('fail',) if r2[0] == 'fail' else ('ok', r2[1], tu.canon(r2[2])) if r2[0] == 'ok' else ('budget',)
+        if set(ref2.flags) == fl and rr2 == rr:
+            fl.discard('U7')
+            info['u7_resolved'] = 'value'
+        elif set(ref2.flags) == fl and rr2[:2] == rr[:2]:
+            # same acceptance and consumed length under both readings: only the value stays uncompared
+            fl.discard('U7')
+            fl.add('U7v')
+            info['u7_resolved'] = 'accept'
     if t[0] == 'exc':
         return dict(bucket=f'exc:{t[1]}', oracle='parse returns a result or a FailedParse', observed=t, reference=rr), info
     if fl & ACCEPT_FLAGS:
@@ -72,6 +86,10 @@ def compare(rules, start, text, model=None, cfg=None):
         return dict(bucket='length', oracle='consumed length agrees with RefPEG', expected=rr, observed=t), info
     if rr[0] == 'ok' and not fl and rr[2] != t[2]:
         return dict(bucket='ast', oracle='AST agrees with RefPEG', expected=rr, observed=t), info
+    if rr[0] == 'ok' and fl == {'U13'} and isinstance(rr[2], dict) and isinstance(t[2], dict) and set(rr[2]) != set(t[2]):
+        # the value bound by a name around another name is undocumented (U13), the keys are not:
+        # every name defined in the rule is present in its AST
+        return dict(bucket='ast-keys', oracle='every name defined in a rule is a key of its AST (None when not bound)', expected=sorted(rr[2]), observed=sorted(t[2])), info
     return None, info
 
 
